@@ -441,4 +441,126 @@ theorem generateTaskRefs_idem_same (now now' : Time) (ex : List TaskRef) (T : Li
   have := (Furiko.Props.C11.generateTaskRefs_members now ex T).2.1 t ht
   exact List.mem_map.mpr ⟨_, this, by rw [getTaskRef_name, hok t ht]⟩
 
+/-! ### idempotence across observation times (F30 repaired)
+
+A pod that does not tell when it finished is recorded with the clock of the observing pass
+(`Pod.recordedFinish`): two readings of one pod at different clocks agree, or both report a finish time
+and differ only in it.  `GetTaskRef` keeps the FIRST recorded finish time of a finished task with a final
+state (fix 6ab84c2), so the generated refs are a fixpoint against such a second reading too. -/
+
+/-- `t'` is `t` read at another clock -/
+def TaskSim (t t' : Task) : Prop :=
+  t' = t ∨ (t.ref.finishTimestamp.isSome = true ∧
+    ∃ f, t' = { t with ref := { t.ref with finishTimestamp := some f } })
+
+def OptSim : Option Task → Option Task → Prop
+  | none, none => True
+  | some t, some t' => TaskSim t t'
+  | _, _ => False
+
+theorem OptSim.refl (o : Option Task) : OptSim o o := by
+  cases o with
+  | none => trivial
+  | some t => exact Or.inl rfl
+
+theorem OptSim.of_eq {a b : Option Task} (h : b = a) : OptSim a b := h ▸ OptSim.refl a
+
+theorem TaskSim.name {t t' : Task} (h : TaskSim t t') : t'.name = t.name := by
+  rcases h with rfl | ⟨_, f, rfl⟩ <;> rfl
+
+theorem TaskSim.refName {t t' : Task} (h : TaskSim t t') : t'.ref.name = t.ref.name := by
+  rcases h with rfl | ⟨_, f, rfl⟩ <;> rfl
+
+theorem getTaskRef_idem_some_fin (e : TaskRef) (t : Task) (f' : Time)
+    (hf : t.ref.finishTimestamp.isSome = true) (hfinal : isFinalTaskState t.ref.status.state = true) :
+    getTaskRef (some (getTaskRef (some e) t)) { t with ref := { t.ref with finishTimestamp := some f' } } =
+      getTaskRef (some e) t := by
+  unfold getTaskRef
+  cases hft : t.ref.finishTimestamp with
+  | none => rw [hft] at hf; cases hf
+  | some f =>
+    cases hr : t.ref.runningTimestamp <;> cases hef : e.finishTimestamp <;> cases her : e.runningTimestamp <;>
+      cases hes : isFinalTaskState e.status.state <;>
+      simp [hft, hr, hef, her, hes, hfinal]
+
+theorem getTaskRef_idem_none_fin (t : Task) (f' : Time)
+    (hf : t.ref.finishTimestamp.isSome = true) (hfinal : isFinalTaskState t.ref.status.state = true) :
+    getTaskRef (some (getTaskRef none t)) { t with ref := { t.ref with finishTimestamp := some f' } } =
+      getTaskRef none t := by
+  rcases t with ⟨tn, ⟨n, c, r, f, ri, pi, st, ds⟩, dts⟩
+  unfold getTaskRef
+  cases f with
+  | none => cases hf
+  | some f =>
+    have hfinal' : isFinalTaskState st.state = true := hfinal
+    cases r <;> simp [hfinal']
+
+theorem getTaskRef_idem_some_sim (e : TaskRef) (t t' : Task) (hfin : TaskFinal t) (hs : TaskSim t t') :
+    getTaskRef (some (getTaskRef (some e) t)) t' = getTaskRef (some e) t := by
+  rcases hs with rfl | ⟨hf, f, rfl⟩
+  · exact getTaskRef_idem_some e _ hfin
+  · exact getTaskRef_idem_some_fin e t f hf (hfin hf)
+
+theorem getTaskRef_idem_none_sim (t t' : Task) (hfin : TaskFinal t) (hs : TaskSim t t') :
+    getTaskRef (some (getTaskRef none t)) t' = getTaskRef none t := by
+  rcases hs with rfl | ⟨hf, f, rfl⟩
+  · exact getTaskRef_idem_none _ hfin
+  · exact getTaskRef_idem_none_fin t f hf (hfin hf)
+
+/-- `refresh_generated` against a second reading of the tasks -/
+theorem refresh_generated_sim (now now' : Time) (ex : List TaskRef) (T T' : List Task)
+    (hT : (T.map (·.name)).Nodup) (hok : ∀ t ∈ T, TaskOK t) (hfin : ∀ t ∈ T, TaskFinal t)
+    (g : TaskRef) (hg : g ∈ canonRefs now ex T) (hagree : OptSim (findTask T g.name) (findTask T' g.name)) :
+    refresh now' T' g = g := by
+  unfold canonRefs at hg
+  rcases List.mem_append.mp hg with h | h
+  · obtain ⟨e, he, rfl⟩ := List.mem_map.mp h
+    have hn := refresh_name now T hok e
+    rw [hn] at hagree
+    unfold refresh at hn ⊢
+    cases hf : findTask T e.name with
+    | none =>
+      simp only [hf] at hn ⊢
+      rw [hn]
+      rw [hf] at hagree
+      cases hf' : findTask T' e.name with
+      | none => exact lostRef_idem now now' e
+      | some t' => rw [hf'] at hagree; exact absurd hagree (by simp [OptSim])
+    | some t =>
+      simp only [hf] at hn ⊢
+      rw [hn]
+      rw [hf] at hagree
+      cases hf' : findTask T' e.name with
+      | none => rw [hf'] at hagree; exact absurd hagree (by simp [OptSim])
+      | some t' =>
+        rw [hf'] at hagree
+        exact getTaskRef_idem_some_sim e t t' (hfin t (findTask_some hf).1) hagree
+  · obtain ⟨t, ht, rfl⟩ := List.mem_map.mp h
+    have ht' := (List.mem_filter.mp ht).1
+    have hn : (getTaskRef none t).name = t.name := by rw [getTaskRef_name, hok t ht']
+    rw [hn, findTask_of_mem hT ht'] at hagree
+    unfold refresh
+    rw [hn]
+    cases hf' : findTask T' t.name with
+    | none => rw [hf'] at hagree; exact absurd hagree (by simp [OptSim])
+    | some t' =>
+      rw [hf'] at hagree
+      exact getTaskRef_idem_none_sim t t' (hfin t ht') hagree
+
+/-- **`GenerateTaskRefs` is idempotent across observation times**: generating again from the generated
+refs, against a second reading of the same tasks (`OptSim`), changes nothing -/
+theorem generateTaskRefs_idem_sim (now now' : Time) (ex : List TaskRef) (T T' : List Task)
+    (hex : (ex.map (·.name)).Nodup) (hT : (T.map (·.name)).Nodup) (hok : ∀ t ∈ T, TaskOK t)
+    (hfin : ∀ t ∈ T, TaskFinal t) (hT' : (T'.map (·.name)).Nodup) (hok' : ∀ t ∈ T', TaskOK t)
+    (hsub : ∀ t ∈ T', t.name ∈ (generateTaskRefs now ex T).map (·.name))
+    (hagree : ∀ g ∈ generateTaskRefs now ex T, OptSim (findTask T g.name) (findTask T' g.name)) :
+    generateTaskRefs now' (generateTaskRefs now ex T) T' = generateTaskRefs now ex T := by
+  have hgn := generateTaskRefs_names_nodup now ex T hex hT hok
+  refine generateTaskRefs_fix now' _ T' hgn ?_ hT' hok' hsub ?_
+  · rw [generateTaskRefs_canon now ex T hex hT hok]
+    exact sortTaskRefs_sorted _
+  · intro g hg
+    have hg' : g ∈ canonRefs now ex T := (generateTaskRefs_perm_canon now ex T hex hT hok).mem_iff.mp hg
+    exact refresh_generated_sim now now' ex T T' hT hok hfin g hg' (hagree g hg)
+
 end Furiko.JobCtl.Live
